@@ -162,36 +162,40 @@ def msgs_of(t, acc):
     return acc
 
 
-def probe_layout(job, headers):
-    """gcc offsetof/sizeof probe for every struct of the schema tree."""
+def layout_source(job, headers):
+    """a C file with a table of sizeof/offsetof for every struct of the schema tree; it is compiled
+    into every shared object and read back through ctypes (no separate probe process)"""
     d = job["dir"]
     msgs = msgs_of(job["top"], {})
-    lines = ["#include <stdio.h>", "#include <stddef.h>"] + [f'#include "{os.path.basename(h)}"' for h in headers]
-    lines.append("int main(void) {")
+    lines = ["#include <stddef.h>"] + [f'#include "{os.path.basename(h)}"' for h in headers]
+    entries = []
+    keys = []
     for cname, t in msgs.items():
-        lines.append(f'  printf("S {cname} %zu\\n", sizeof(struct {cname}));')
+        entries.append(f"sizeof(struct {cname})")
+        keys.append(("S", cname, None))
         for num, fname, ft in t[2]:
-            lines.append(f'  printf("F {cname} {num} %zu %zu\\n", offsetof(struct {cname}, {fname}), '
-                         f'sizeof(((struct {cname} *)0)->{fname}));')
-    lines.append("  return 0;\n}")
-    src = os.path.join(d, "probe_layout.c")
+            entries.append(f"offsetof(struct {cname}, {fname})")
+            keys.append(("O", cname, str(num)))
+            entries.append(f"sizeof(((struct {cname} *)0)->{fname})")
+            keys.append(("Z", cname, str(num)))
+    lines.append("const unsigned long bp_verif_layout[] = {" + ", ".join(entries) + "};")
+    src = os.path.join(d, "verif_layout.c")
     with open(src, "w") as f:
         f.write("\n".join(lines) + "\n")
-    exe = os.path.join(d, "probe_layout")
-    p = subprocess.run(["gcc", "-O0", "-I", d, "-I", os.path.join(REPO, "lib/c"), src, "-o", exe],
-                       capture_output=True, text=True, timeout=120)
-    if p.returncode != 0:
-        raise RuntimeError("probe does not compile: " + p.stderr[-1500:])
-    out = subprocess.run([exe], capture_output=True, text=True, timeout=20).stdout
+    return src, keys
+
+
+def read_layout(lib, keys):
+    arr = (ctypes.c_ulong * len(keys)).in_dll(lib, "bp_verif_layout")
     lay = {}
-    for ln in out.split("\n"):
-        w = ln.split()
-        if not w:
-            continue
-        if w[0] == "S":
-            lay.setdefault(w[1], {"fields": {}})["size"] = int(w[2])
+    for (k, cname, num), v in zip(keys, arr):
+        e = lay.setdefault(cname, {"fields": {}})
+        if k == "S":
+            e["size"] = int(v)
+        elif k == "O":
+            e["fields"].setdefault(num, [0, 0])[0] = int(v)
         else:
-            lay.setdefault(w[1], {"fields": {}})["fields"][w[2]] = (int(w[3]), int(w[4]))
+            e["fields"].setdefault(num, [0, 0])[1] = int(v)
     return lay
 
 
@@ -314,15 +318,9 @@ def do_schema(job):
     csrcs = [o for o in outs if o.endswith(".c")]
     if job.get("want_generated"):
         res["generated"] = {os.path.basename(o): open(o).read() for o in outs}
-    try:
-        lay = probe_layout(job, headers)
-    except BaseException as e:  # noqa
-        res["probe_error"] = str(e)[-1500:]
-        return res
-    res["layout"] = lay
+    lay_src, lay_keys = layout_source(job, headers)
     top = job["top"]
     topname = top[1]
-    total = lay[topname]["size"]
     hdr = open([h for h in headers if os.path.basename(h) == job["main_header"]][0]).read()
     m = re.search(r"#define (BYTES_LENGTH_\w+) (\d+)\s*\n\s*\n?struct " + re.escape(topname) + r" \{", hdr)
     if not m:
@@ -335,11 +333,14 @@ def do_schema(job):
     for cfg in job["configs"]:
         name = cfg["name"]
         try:
-            so = build_so(d, name, cfg["cc"], cfg["flags"], csrcs + [rt_src], cfg.get("single_tu", False))
+            so = build_so(d, name, cfg["cc"], cfg["flags"], csrcs + [rt_src, lay_src], cfg.get("single_tu", False))
             lib = ctypes.CDLL(so)
+            lay = read_layout(lib, lay_keys)
+            total = lay[topname]["size"]
         except BaseException as e:  # noqa
             res["runs"][name] = {"build_error": str(e)[-1500:]}
             continue
+        res.setdefault("layout", lay)
         enc_fn = getattr(lib, "Encode" + topname)
         dec_fn = getattr(lib, "Decode" + topname)
         runs = []
